@@ -1501,6 +1501,7 @@ func (v *VMValue) ComputedExecute(ctx *Context, detail *BufferSpan) *VMValue {
 	vm.RandSrc = ctx.RandSrc
 	vm.forceSolveDetail = true
 	vm.CustomFlag = ctx.CustomFlag
+	vm.CustomDiceInfo = ctx.CustomDiceInfo // 延迟编译的表达式(如从JSON恢复的值)同样需要识别自定义骰子语法
 	if ctx.Config.OpCountLimit > 0 && vm.NumOpCount > vm.Config.OpCountLimit {
 		vm.Error = errors.New("允许算力上限")
 		ctx.Error = vm.Error
@@ -1588,6 +1589,7 @@ func (v *VMValue) FuncInvokeRaw(ctx *Context, params []*VMValue, useUpCtxLocal b
 	ctx.NumOpCount = vm.NumOpCount       // 防止无限递归
 	vm.RandSrc = ctx.RandSrc
 	vm.CustomFlag = ctx.CustomFlag
+	vm.CustomDiceInfo = ctx.CustomDiceInfo // 延迟编译的函数体(如从JSON恢复的函数)同样需要识别自定义骰子语法
 	if ctx.Config.OpCountLimit > 0 && vm.NumOpCount > vm.Config.OpCountLimit {
 		vm.Error = errors.New("允许算力上限")
 		ctx.Error = vm.Error
